@@ -622,15 +622,17 @@ impl CanonicalRequest {
         let mut missing_messages = Vec::new();
         let mut builder = SigV4Authenticator::builder();
 
-        // Rule 7c: Use the first value for each key.
+        // Rule 7c: Use the first value for each key. The stored query parameters are in normalized (percent-encoded)
+        // form; the authentication parameters must be used in decoded form (e.g. `AKID%2F20150830%2F...` is the
+        // credential `AKID/20150830/...`).
         if let Some(credential) = self.query_parameters.get(X_AMZ_CREDENTIAL) {
-            builder.credential(credential[0].clone());
+            builder.credential(unescape_uri_encoding(&credential[0]));
         } else {
             missing_messages.push(MSG_QUERY_STRING_MUST_INCLUDE_CREDENTIAL);
         }
 
         if let Some(signature) = self.query_parameters.get(X_AMZ_SIGNATURE) {
-            builder.signature(signature[0].clone());
+            builder.signature(unescape_uri_encoding(&signature[0]));
         } else {
             missing_messages.push(MSG_QUERY_STRING_MUST_INCLUDE_SIGNATURE);
         }
@@ -659,10 +661,10 @@ impl CanonicalRequest {
 
         // Get the session token if present.
         if let Some(token) = self.query_parameters.get(X_AMZ_SECURITY_TOKEN) {
-            builder.session_token(token[0].clone());
+            builder.session_token(unescape_uri_encoding(&token[0]));
         }
 
-        let timestamp_str = timestamp_str.expect("date_str should be set")[0].clone();
+        let timestamp_str = unescape_uri_encoding(&timestamp_str.expect("date_str should be set")[0]);
         Ok(AuthParams {
             builder,
             signed_headers,
